@@ -311,6 +311,12 @@ def rule_register(ck):
                           (c := cmp_norm(a, tr)) and c[1] == "is not" and canon(c[0]) == "self.constraint_matrix" for a, tr in edge_facts(e.test.expr, e.label)))
         ck.require(guarded and ok, "C12.R4", f, t, ok="store only when no constraint matrix exists", bad=f"`{src(n.stmt, 60)}` can run although constraints exist: the matrix "
                    f"then has fewer columns than there are stations", sink=f"register:store:{p}")
+    # a refused registration has changed nothing: no store lies on a path to the refusal
+    for r in raises:
+        before = [n for n, k, p, t in writes if r in cfg.reach(n)]
+        ck.require(not before, "C12.R4", f, r.stmt, ok="the refusal leaves the network as it was",
+                   bad=f"`{src(before[0].stmt, 60) if before else ''}` runs before the registration is refused: the station is added although constraints exist, and the matrix "
+                       "then has fewer columns than there are stations", sink="register:store-before-refusal")
     # co-registration (C10-R2): the three per-station stores and the cache refresh
     paths = {p for n, k, p, t in writes}
     ck.require({"self._EVSEs", "self._voltages", "self._phase_angles"} <= paths, "C12.R4", f, "EVSE, voltage and angle registered together",
